@@ -382,7 +382,11 @@ get_registered_status (GIRepository *repository,
   if (lazy_status)
     *lazy_status = TRUE;
   if (!allow_lazy)
-    return NULL;
+    {
+      /* The caller has to load it eagerly, but another version is still a conflict */
+      check_version_conflict (typelib, namespace, version, version_conflict);
+      return NULL;
+    }
   return check_version_conflict (typelib, namespace, version, version_conflict);
 }
 
@@ -669,6 +673,11 @@ g_irepository_load_typelib (GIRepository *repository,
 		   namespace, nsversion, version_conflict);
       return NULL;
     }
+
+  /* Loaded lazily before: keep that typelib and load it eagerly now */
+  if (is_lazy)
+    typelib = g_hash_table_lookup (repository->priv->lazy_typelibs, namespace);
+
   return register_internal (repository, "<builtin>",
 			    allow_lazy, typelib, error);
 }
@@ -1617,6 +1626,19 @@ require_internal (GIRepository  *repository,
 		   "Requiring namespace '%s' version '%s', but '%s' is already loaded",
 		   namespace, version, version_conflict);
       return NULL;
+    }
+
+  if (is_lazy)
+    {
+      /* Loaded lazily before and required eagerly now: load the dependencies
+       * of the typelib we have and move it to the loaded typelibs, rather
+       * than searching for a file again. */
+      typelib = g_hash_table_lookup (repository->priv->lazy_typelibs, namespace);
+      if (!register_internal (repository,
+			      g_irepository_get_typelib_path (repository, namespace),
+			      FALSE, typelib, error))
+	return NULL;
+      return typelib;
     }
 
   if (version != NULL)
